@@ -600,6 +600,9 @@ def m_mean(I, e, args, kws):
 @model("numpy.min", "numpy.max", "numpy.nanmin", "numpy.nanmax")
 def m_minmax(I, e, args, kws):
     out = _reduce(I, e, args, kws, lin=False)
+    src_ = args[0]
+    if src_.tag("deg") is not None:
+        out.tags["deg"] = dict(src_.tag("deg"))   # max/min are positively homogeneous of degree one
     # identity of this reduction: two clouds shifted by the *same* offset stay comparable
     out.tags["offset_id"] = ("off", I.fr.fn.qual, e.lineno, e.col_offset)
     name = M.norm_text(e.func).split(".")[-1]
@@ -963,6 +966,8 @@ def m_norm(I, e, args, kws):
     o = arg(args, kws, 1, "ord")
     out.tags["norm_ord"] = o.const if (o is not None and o.known) else ("default" if o is None else None)
     out.tags["norm_of"] = x.term
+    if x.tag("deg") is not None:
+        out.tags["deg"] = dict(x.tag("deg"))      # a norm is positively homogeneous of degree one
     for v in kws.values():
         f = v.flat()
         out.shp |= f.data | f.shp
@@ -1091,6 +1096,7 @@ def m_default_rng(I, e, args, kws):
 def rng_method(I, e, base, attr, args, kws):
     out = mk([base] + args + list(kws.values()), fresh="FRESH", tags={"kind": "ndarray"})
     out.term = ("draw", I.fr.fn.qual, e.lineno, e.col_offset)
+    out.tags["deg"] = {}
     I.emit("random_draw", e, gen=base, method=attr, args=args, kws=kws, result=out, via="method")
     k = base.tag("kind")
     if k == "rng":
@@ -1216,13 +1222,9 @@ def object_method(I, e, base, attr, args, kws):
         return out
     if k in ("pintq",):
         if attr == "to":
-            I.emit("pint_to", e, base=base, target=args[0] if args else None)
-            out.tags["kind"] = "pintq"
-            out.tags["pint_dim"] = args[0].const if (args and args[0].known) else None
-            out.tags["pint_expr"] = base.tag("pint_expr")
-            return out
+            return m_pint_to(I, e, [base] + args, kws)
         if attr == "check":
-            return out
+            return mk([base] + args, tags={"kind": "bool"})
     I.emit("opaque_method", e, base=base, attr=attr, args=args, kws=kws)
     return out
 
@@ -1237,6 +1239,7 @@ def m_normalize(I, e, args, kws):
         out.tags["simplex_rows"] = True
         out.sign = "NONNEG"
     out.tags["scale_free"] = True
+    out.tags["deg"] = {}                          # rows are divided by their own norm: degree 0 in the input
     return out
 
 
@@ -1269,6 +1272,7 @@ def m_entropy(I, e, args, kws):
     # scipy normalises pk and qk to sum 1: the result is invariant to the scale of either argument
     out = mk(args + list(kws.values()), fresh="FRESH", unit=ONE, sign="NONNEG", shape=S())
     out.tags["scale_free"] = True
+    out.tags["deg"] = {}
     return out
 
 
@@ -1650,18 +1654,77 @@ def cvx_method(I, e, base, attr, args, kws):
 
 
 # =================================================================== pint
-@model("dreye.ureg", "pint.UnitRegistry", "pint.Quantity")
+@model("pint.UnitRegistry")
 def m_ureg(I, e, args, kws):
+    return Val(tags={"kind": "ureg", "notnone": True}, term=("ureg",))
+
+
+@model("pint.Context", "pint.set_application_registry")
+def m_pint_misc(I, e, args, kws):
+    return Val(tags={"kind": "pintctx"})
+
+
+def ureg_unit(I, e, args, kws):
+    """ureg("I") : the unit quantity 1·I"""
     a0 = args[0] if args else None
-    out = mk(args, tags={"kind": "pintq", "pint_unit": a0.const if (a0 is not None and a0.known) else None,
-                         "pint_src": a0})
+    out = mk(args, tags={"kind": "pintq", "pint_unit": a0.const if (a0 is not None and a0.known) else None, "deg": {}, "notnone": True})
+    out.shape = S()
+    out.shp |= out.data
+    out.data = E
     I.emit("pint_unit", e, unit=a0)
     return out
+
+
+UREG_CONSTANTS = {"planck_constant", "speed_of_light", "N_A", "avogadro_constant", "avogadro_number", "boltzmann_constant", "h", "c"}
 
 
 @model("pint.to")
 def m_pint_to(I, e, args, kws):
     base = args[0]
-    out = mk(args + list(kws.values()), tags={"kind": "pintq"})
+    out = base.copy(term=mk_term("to", base.term))
+    out.items = None
+    for a in args[1:2]:
+        out.ctrl |= a.flat().data
+    out.tags = dict(base.tags, kind="pintq", pint_converted=True)
     I.emit("pint_to", e, base=base, target=args[1] if len(args) > 1 else None)
+    return out
+
+
+@model("numpy.swapaxes")
+def m_swapaxes(I, e, args, kws):
+    x = args[0]
+    a1, a2 = const_int(args[1]) if len(args) > 1 else None, const_int(args[2]) if len(args) > 2 else None
+    out = x.copy(term=mk_term("swapaxes", x.term))
+    out.items = None
+    s_ = x.shape
+    if s_ is not None and not s_.ell and a1 is not None and a2 is not None:
+        ax = list(s_.axes)
+        try:
+            ax[a1], ax[a2] = ax[a2], ax[a1]
+            out.shape = Shape(ax)
+        except IndexError:
+            out.shape = None
+    else:
+        out.shape = None
+    return out
+
+
+@model("numpy.moveaxis")
+def m_moveaxis(I, e, args, kws):
+    x = args[0]
+    a1, a2 = const_int(args[1]) if len(args) > 1 else None, const_int(args[2]) if len(args) > 2 else None
+    out = x.copy(term=mk_term("moveaxis", x.term))
+    out.items = None
+    s_ = x.shape
+    if s_ is not None and not s_.ell and a1 is not None and a2 is not None:
+        ax = list(s_.axes)
+        n = len(ax)
+        try:
+            item = ax.pop(a1 if a1 >= 0 else n + a1)
+            ax.insert(a2 if a2 >= 0 else n + a2, item)
+            out.shape = Shape(ax)
+        except IndexError:
+            out.shape = None
+    else:
+        out.shape = None
     return out
